@@ -134,6 +134,10 @@ def _bsum(eng, p, h, el, ws, j, k):
 
 
 VIEWS["bsum"] = _bsum
+VIEWS.setdefault("ID", lambda eng, p, h, k: T.sv_int(h.fields["_edge_list"].val[k.t]))
+_IMK = T.Pair(DK, T.INT)
+VIEWS["IM"] = lambda eng, p, h, k, n: T.scalar(T.META, h.fields["_incidences_metadata"].val[_IMK.mk(k.t, eng.coerce(n, T.INT).t)])
+VIEWS["HASIM"] = lambda eng, p, h, k, n: T.sv_bool(h.fields["_incidences_metadata"].dom[_IMK.mk(k.t, eng.coerce(n, T.INT).t)])
 
 
 INJ = "all(implies(0 <= a and a < b and b < len(edge_list), canon(edge_list[a]) != canon(edge_list[b])) for a in Int for b in Int)"
@@ -535,14 +539,19 @@ CONTRACTS = [
                       "none": "(sz is None) == all(k not in _done0 for k in Key)",
                       "same": "implies(sz is not None, all(len(fst(k)) + len(snd(k)) == sz for k in _done0))",
                       "witness": "implies(sz is not None, any(len(fst(k)) + len(snd(k)) == sz for k in _done0))"}}),
-    C("get_sizes", params={}, result="Bag[Int]", pure=True,
+    C("get_sizes", params={}, result="Bag[Int]", pure=True, options={"image_counts"},
       ensures={"len": "len(result) == card(E(self))",
+               "exact": "all(count(result, s) == card({k for k in E(self) if len(fst(k)) + len(snd(k)) == s}) for s in Int if trig(card({k for k in E(self) if len(fst(k)) + len(snd(k)) == s})))",
                "members": "all(implies(count(result, s) >= 1, any(len(fst(k)) + len(snd(k)) == s for k in E(self))) for s in Int)",
                "covers": "all(count(result, len(fst(k)) + len(snd(k))) >= 1 for k in E(self))"}),
-    C("get_orders", params={}, result="Bag[Int]", pure=True,
+    C("get_orders", params={}, result="Bag[Int]", pure=True, options={"image_counts"},
       ensures={"len": "len(result) == card(E(self))",
+               "exact": "all(count(result, s) == card({k for k in E(self) if len(fst(k)) + len(snd(k)) - 1 == s}) for s in Int if trig(card({k for k in E(self) if len(fst(k)) + len(snd(k)) - 1 == s})))",
                "members": "all(implies(count(result, s) >= 1, any(len(fst(k)) + len(snd(k)) - 1 == s for k in E(self))) for s in Int)",
                "covers": "all(count(result, len(fst(k)) + len(snd(k)) - 1) >= 1 for k in E(self))"}),
+    C("distribution_sizes", params={}, result="Map[Int,Int]", pure=True, requires={"wf": "wf(self)"},
+      ensures={"dom": "all((s in result) == any(len(fst(k)) + len(snd(k)) == s for k in E(self)) for s in Int)",
+               "val": "all(result[s] == card({k for k in E(self) if len(fst(k)) + len(snd(k)) == s}) for s in result)"}),
     C("max_size", params={}, result="Int", pure=True,
       raises={"ValueError": "card(E(self)) == 0"},
       ensures={"bound": "all(len(fst(k)) + len(snd(k)) <= result for k in E(self))",
@@ -784,4 +793,26 @@ CONTRACTS += [
       ensures={"HM": "HM(self) == metadata"}, properties=['C02', 'C07']),
     C("set_attr_to_hypergraph_metadata", params={"field": "Field", "value": "Val"}, modifies=["_hypergraph_metadata"],
       ensures={"HM": "HM(self) == mset(HM(old(self)), field, value)"}, properties=['C02', 'C07']),
+]
+
+
+# ---- incidence metadata and the metadata tables as a whole (session 4): the entry is filed under the canonical hyperedge and the node
+CONTRACTS += [
+    C("set_incidence_metadata", params={"edge": "Key", "node": "Node", "metadata": "Meta"}, modifies=["_incidences_metadata"],
+      raises={"ValueError": "canon(edge) not in E(self)"},
+      ensures={"set": "HASIM(self, canon(edge), node) and IM(self, canon(edge), node) == metadata",
+               "others": "all(implies(k != canon(edge) or n != node, HASIM(self, k, n) == HASIM(old(self), k, n) and IM(self, k, n) == IM(old(self), k, n)) for k in Key for n in Node)"}),
+    C("get_incidence_metadata", params={"edge": "Key", "node": "Node"}, result="Meta", pure=True,
+      raises={"ValueError": "canon(edge) not in E(self)", "KeyError": "canon(edge) in E(self) and not HASIM(self, canon(edge), node)"},
+      ensures={"result": "result == IM(self, canon(edge), node)"}),
+    C("get_all_incidences_metadata", params={}, result="Map[Pair[Pair[Tup,Tup],Int],Meta]", pure=True,
+      ensures={"dom": "all((pair(k, n) in result) == HASIM(self, k, n) for k in Key for n in Node)",
+               "val": "all(implies(HASIM(self, k, n), result[pair(k, n)] == IM(self, k, n)) for k in Key for n in Node)"}),
+    # a list here (the other classes hand out the table): one entry per node, each the metadata of a node (the order of the list is not modelled)
+    C("get_all_nodes_metadata", params={}, result="Bag[Meta]", pure=True, requires={"wf": "wf(self)"},
+      ensures={"len": "len(result) == card(V(self))",
+               "members": "all(implies(count(result, m) >= 1, any(n in V(self) and NM(self, n) == m for n in Node)) for m in MetaD)",
+               "covers": "all(count(result, NM(self, n)) >= 1 for n in V(self))"}),
+    C("get_all_edges_metadata", params={}, result="Map[Int,Meta]", pure=True, requires={"wf": "wf(self)"},
+      ensures={"by_id": "all(ID(self, k) in result and result[ID(self, k)] == M(self, k) for k in E(self))"}),
 ]
